@@ -317,6 +317,16 @@ pub fn queries(desc: &J, rng: &mut Rng) -> Vec<(String, J)> {
               "current_annex_hash"] {
         q.push((n.to_string(), json!([])));
     }
+    // aggregate hashes: judged through symbolic digests (ElementsEnv.tla JH), hashed by `concretise`
+    for n in ["input_outpoints_hash", "input_amounts_hash", "input_scripts_hash", "input_utxos_hash", "input_sequences_hash", "input_annexes_hash",
+              "input_script_sigs_hash", "inputs_hash", "issuance_asset_amounts_hash", "issuance_token_amounts_hash", "issuance_range_proofs_hash",
+              "issuance_blinding_entropy_hash", "issuances_hash", "output_amounts_hash", "output_nonces_hash", "output_scripts_hash",
+              "output_range_proofs_hash", "output_surjection_proofs_hash", "outputs_hash", "tx_hash", "tapleaf_hash", "tappath_hash", "tap_env_hash",
+              "sig_all_hash"] {
+        q.push((n.to_string(), json!([])));
+    }
+    for i in 0..=n_in { for n in ["input_utxo_hash", "input_hash", "issuance_hash"] { q.push((n.to_string(), u32_j(i))); } }
+    for i in 0..=n_out { q.push(("output_hash".to_string(), u32_j(i))); }
     let far = [n_in + 1 + rng.below(5) as u32, 0x10000, 0xffffffff, 0x80000000];
     for n in ["input_pegin", "input_prev_outpoint", "input_asset", "input_amount", "input_script_hash", "input_sequence", "reissuance_blinding",
               "new_issuance_contract", "reissuance_entropy", "issuance_asset_amount", "issuance_token_amount", "issuance_asset_proof",
@@ -364,6 +374,69 @@ pub fn run_env(desc: &J, rng: &mut Rng) -> J {
     let sighash_env = hex(built.env.c_tx_env().sighash_all().as_byte_array());
     let sighash_jet = run_jet(&built.env, "sig_all_hash", &json!([]));
     json!({"ev": "env", "desc": built.desc, "build": "ok", "answers": answers, "sighash_env": sighash_env, "sighash_jet": sighash_jet})
+}
+
+// ------------------------------------------------------------------ symbolic digests
+/// bytes of one part of a symbolic digest; `named` holds the digests of the global hash jets computed so far
+fn part_bytes(p: &J, named: &std::collections::HashMap<String, [u8; 32]>, out: &mut Vec<u8>) -> Result<(), String> {
+    match p[0].as_str().unwrap_or("") {
+        "h" => out.extend(unhex(p[1].as_str().ok_or("hex")?)),
+        "u8" => out.push(p[1].as_u64().ok_or("u8")? as u8),
+        "u32" => out.extend(u32_of(&p[1]).to_be_bytes()),
+        "u64" => out.extend(u64_of(&p[1]).to_be_bytes()),
+        "str" => out.extend(p[1].as_str().ok_or("str")?.as_bytes()),
+        "t" => out.extend(term_digest(&p[1], named)?),
+        "ref" => out.extend(named.get(p[1].as_str().ok_or("ref")?).ok_or(format!("digest {} not computed yet", p[1]))?),
+        x => return Err(format!("unknown part {}", x)),
+    }
+    Ok(())
+}
+fn term_digest(t: &J, named: &std::collections::HashMap<String, [u8; 32]>) -> Result<[u8; 32], String> {
+    if t[0] != "sha" { return Err(format!("not a digest term: {}", t)); }
+    let mut bytes = vec![];
+    for p in t[1].as_array().ok_or("parts")? { part_bytes(p, named, &mut bytes)?; }
+    Ok(*sha256::Hash::hash(&bytes).as_byte_array())
+}
+/// expected answer (normal form with digest terms inside) against the observed answer (hex strings inside)
+fn same_answer(exp: &J, got: &J, named: &std::collections::HashMap<String, [u8; 32]>) -> Result<bool, String> {
+    if exp.is_array() && exp[0] == "sha" { return Ok(got.as_str() == Some(hex(&term_digest(exp, named)?).as_str())); }
+    match (exp.as_array(), got.as_array()) {
+        (Some(a), Some(b)) => {
+            if a.len() != b.len() { return Ok(false); }
+            for (x, y) in a.iter().zip(b) { if !same_answer(x, y, named)? { return Ok(false); } }
+            Ok(true)
+        }
+        _ => Ok(exp == got),
+    }
+}
+/// TLC's TERMS lines ({ev, items: [[name, arg, expected with digest terms, observed]]}) hashed and compared.
+/// Global hash jets are evaluated in dependency order (a `ref` needs its target first).
+pub fn concretise(path: &str) {
+    let mut out = Out::stdout();
+    for line in read_ndjson(path) {
+        let items = line["items"].as_array().cloned().unwrap_or_default();
+        let mut named: std::collections::HashMap<String, [u8; 32]> = std::collections::HashMap::new();
+        // fixpoint over the global digests
+        let mut progress = true;
+        while progress {
+            progress = false;
+            for it in &items {
+                let name = it[0].as_str().unwrap_or("");
+                if it[2].is_array() && it[2][0] == "sha" && !named.contains_key(name) {
+                    if let Ok(d) = term_digest(&it[2], &named) { named.insert(name.to_string(), d); progress = true; }
+                }
+            }
+        }
+        let mut bad = vec![];
+        for it in &items {
+            match same_answer(&it[2], &it[3], &named) {
+                Ok(true) => {}
+                Ok(false) => bad.push(json!({"jet": it[0], "arg": it[1], "got": it[3]})),
+                Err(e) => bad.push(json!({"jet": it[0], "arg": it[1], "error": e})),
+            }
+        }
+        out.emit(&json!({"ev": line["ev"], "n": items.len(), "bad": bad}));
+    }
 }
 
 // ------------------------------------------------------------------ random descriptions
